@@ -16,6 +16,8 @@ NUM_LITS = ['0', '1', '2', '3', '7', '10', '-1', '-3', '0.5', '-0.5', '0.1', '0.
             '10000000000000000000', '18446744073709551616', '6.02*10^23', '4.903*10^4', '0.001*10^310', '5*^-324', '1.0e+19']
 SMALL_INTS = ['0', '1', '2', '3', '4', '5', '7', '10', '-1', '-2']
 TEXTS = ['', 'a', 'ab', '甲', '你好', 'x y', '12']
+# multi-line texts: only in value positions (a block header spanning lines inside an indented block is the known finding KF-C03-multiline-header)
+ML_TEXTS = ['上\n下', '一\n二\n三', '首\r\n尾']
 KEYS = ['a', 'b', 'c', '甲', 'k1']
 
 
@@ -356,7 +358,7 @@ class G:
         rng = self.rng
         r = rng.random()
         if depth <= 0 or r < 0.3:
-            return rng.choice([Num(rng.choice(SMALL_INTS)), Str(rng.choice(TEXTS)), Var('真')])
+            return rng.choice([Num(rng.choice(SMALL_INTS)), Str(rng.choice(TEXTS)), Str(rng.choice(ML_TEXTS)), Var('真')])
         if r < 0.65:
             return Arr([self.value_expr(depth - 1) for _ in range(rng.randint(1, 3))])
         ks = rng.sample(KEYS, rng.randint(1, 3))
@@ -621,8 +623,13 @@ class G:
                 elif k < 0.5:
                     main.append(ExprS(Call('显示', [MCall(Var(o), [('落子', [Num(str(rng.randint(1, 2))), Num(str(rng.randint(1, 2))), Num(str(self.fresh()))])]),
                                                   MCall(Var(o), [('记', [Num(str(self.fresh()))])])])))
-                elif k < 0.65:
+                elif k < 0.58:
                     main.append(ExprS(Call('显示', [MCall(Var(o), [('己', []), ('移', [Num('2')])])])))
+                elif k < 0.65:
+                    # 得到 after a chain of two links, inside an expression: the name is bound to the chain's result
+                    y = '链%d' % self.fresh()
+                    main.append(Decl(['承%d' % self.fresh()], MCall(Var(o), [('己', []), ('移', [Num('3')])], yld=y)))
+                    main.append(ExprS(Call('显示', [Var(y)])))
                 elif k < 0.8:
                     main.append(ExprS(Call('显示', [Prop(Var(o), '横'), Prop(Var(o), '竖')])))
                 elif k < 0.84 and len(objs) >= 2:
@@ -759,8 +766,10 @@ class G:
             k = rng.random()
             if k < 0.5:
                 return Num(rng.choice(SMALL_INTS))
-            if k < 0.7:
+            if k < 0.65:
                 return Str(rng.choice(TEXTS))
+            if k < 0.7:
+                return Str(rng.choice(ML_TEXTS))
             if k < 0.85:
                 return Var('空')
             return Var(rng.choice(['真', '假']))
